@@ -331,7 +331,10 @@ Definition tstep (t : tstate) (d : db) : db * tstate :=
       | w :: rest =>
           let next objs' := match rest with [] => TMain x ks objs' | _ => TObjs x ks rest objs' end in
           match w with
-          | WWipe k => (d, next (objs ++ wipe_list d (co_uuid k)))
+          | WWipe k =>
+              (* the rows are re-read, but the Consumer object whose generation was verified is attached *)
+              (d, next (objs ++ map (fun a => mkAreq (q_cons a) (co_gen k) (q_rp a) (q_rpgen a) (q_rc a) (q_amt a))
+                                    (wipe_list d (co_uuid k))))
           | WRp k a =>
               match find_rp d (ai_rp a) with
               | None => (d, cleanup_or_done (created_uuids ks) (err 400 C_DEFAULT))
